@@ -289,6 +289,8 @@ def rule_r10(chk, facts):
 
 def run(chk, facts, info):
     rule_r10(chk, facts)
+    from . import c14_insert
+    c14_insert.run(chk, facts)
     rule_r1(chk, facts)
     c15.rule_fold(chk, facts, rule='C14-R2', units=None)
     rule_r3(chk, facts)
